@@ -2,7 +2,7 @@ SPECIFICATION MCSpec
 CONSTANTS FailFastOn = "anyerr"
  FlattenPrefer = "real"
  SkipCancelled = TRUE
- CancelDrains = FALSE
+ CancelDrains = "no"
  ExtraWorkers = 1
  WorkersMC = {1}
  BufsMC = {1}
